@@ -48,6 +48,12 @@ def run(ctx, w):
         c14.view_rules(ctx, w, S, R, T)
     up, down = c06.scroll_prims(w, S)
     c12.c06_w9(ctx, w, S, up)
+    # lines leave the screen through the line feed -> region helper -> scroll primitive chain: each link on every path
+    from rules import prims
+    c06.scroll_helpers_total(ctx, w, S, R, up, down, "T8")
+    c06.linefeed_rule(ctx, w, S, R, up)
+    prims.scroll_primitives(ctx, w, S, "T9")
+    ctx.floor("T9", 500, "scroll primitive evaluations")
     # every printable character and CR / LF reaches its handler (Ground row of the transition table)
     from rules import c03, tables
     c03.run_transition(ctx, w, tables.parser_tables(w), only_states=["Ground"], rule="T0")
